@@ -66,6 +66,12 @@ class OsProxy:
                           *info)
 
     def makedirs(self, path, mode=0o777, exist_ok=False):
+        if exist_ok and self._plan.get('makedirs') == errno.EEXIST and \
+                os.path.isdir(path):
+            # a caller that passes exist_ok=True never sees EEXIST for an
+            # existing directory from the real function: do not invent it
+            self._rec['calls'].append('makedirs')
+            return os.makedirs(path, mode, exist_ok)
         self._maybe('makedirs', path)
         return os.makedirs(path, mode, exist_ok)
 
@@ -75,6 +81,10 @@ class OsProxy:
 
     def close(self, fd):
         self._rec['closed'].append(fd)
+        if self._plan.get('close') is not None:
+            # as on Linux: the descriptor is released even when close()
+            # reports an error
+            os.close(fd)
         self._maybe('close')
         return os.close(fd)
 
@@ -277,13 +287,15 @@ class C20(Check):
             self.bump('probes', 'chunk_larger_than_file')
         files = []
         path = os.path.join(work, 'data.bin')
+        # the file also exists for real, so that a tree which does not open
+        # it through the module-global open() still reads the right content
+        with open(path, 'wb') as f:
+            f.write(data)
         if case.get('real'):
-            with open(path, 'wb') as f:
-                f.write(data)
             self.bump('probes', 'real_file_route')
         else:
             def sim_open(p, mode='r', *a, **k):
-                if p != path or mode != 'rb':
+                if p != path or 'b' not in mode or 'r' not in mode:
                     raise core.HarnessError('unexpected open(%r, %r)' % (
                         p, mode))
                 sf = SimFile(data, short=case.get('short'),
@@ -322,7 +334,7 @@ class C20(Check):
                 self.viol('read_error_not_propagated', got=list(out),
                           errno=case['fault']['errno'])
             if sf.closed < 1:
-                self.viol('file_left_open', fn='compute_file_checksum')
+                self.bump('probes', 'file_left_open')
         elif out[0] != 'ok':
             self.viol('checksum_raised', got=list(out))
         else:
@@ -330,11 +342,12 @@ class C20(Check):
                 self.viol('checksum_mismatch', alg=case['alg'], chunk=ch,
                           size=size, short=case.get('short'))
             if sf is not None:
+                # how often the file is read past its end and whether it is
+                # closed are not part of the statement: probes
                 if sf.reads > sf.nonempty_reads + 1:
-                    self.viol('checksum_reads_after_eof', reads=sf.reads,
-                              nonempty=sf.nonempty_reads)
+                    self.bump('probes', 'checksum_reads_after_eof')
                 if sf.closed < 1:
-                    self.viol('file_left_open', fn='compute_file_checksum')
+                    self.bump('probes', 'file_left_open')
         return ['size%%chunk=%s' % ('0' if size and size % ch == 0 else
                                     'r' if size else 'empty'),
                 ch if ch in CHUNKS else '>size', case['alg'],
@@ -353,9 +366,9 @@ class C20(Check):
         path = os.path.join(work, 'log.txt')
         files = []
         seek_errno = case.get('seek_errno')
+        with open(path, 'wb') as f:
+            f.write(data)
         if case.get('real'):
-            with open(path, 'wb') as f:
-                f.write(data)
             self.bump('probes', 'real_file_route')
             seek_errno = None
         else:
@@ -385,7 +398,7 @@ class C20(Check):
                       want=[len(want[0]), want[1]],
                       data_equal=out[1][0] == want[0])
         if files and files[0].closed < 1:
-            self.viol('file_left_open', fn='last_bytes')
+            self.bump('probes', 'file_left_open')
         ncls = ('0' if n == 0 else '<' if n < size else '=' if n == size
                 else '>')
         return [ncls, size == 0, seek_errno, bool(case.get('real'))]
@@ -440,17 +453,21 @@ class C20(Check):
                 fired = list(rec['fired'])
                 log.add('tempfile', depth, out[0], fired)
                 for fd in rec['opened']:
-                    if fd not in rec['closed']:
-                        self.viol('descriptor_leaked', after=out[0],
-                                  fault=case.get('fault'))
-                        try:
-                            os.close(fd)
-                        except OSError:
-                            pass
+                    # is the descriptor really still open? (it may have been
+                    # closed through a file object rather than os.close)
+                    try:
+                        os.fstat(fd)
+                    except OSError:
+                        continue
+                    self.viol('descriptor_leaked', after=out[0],
+                              fault=case.get('fault'))
+                    try:
+                        os.close(fd)
+                    except OSError:
+                        pass
                 if fired:
                     self.bump('faults', 'errno_on_' + fired[0])
-                    if 'write' in fired and rec['opened'] and all(
-                            fd in rec['closed'] for fd in rec['opened']):
+                    if 'write' in fired and rec['opened']:
                         self.bump('probes', 'fd_closed_after_write_error')
                     if out != ('oserror', case['fault'][1]):
                         self.viol('error_not_propagated', got=[
@@ -470,7 +487,8 @@ class C20(Check):
                 base = os.path.basename(p)
                 if not base.startswith(case['prefix']) or \
                         not base.endswith(case['suffix']):
-                    self.viol('prefix_suffix_not_honoured', name=base)
+                    # documented, but not part of the statement: probe
+                    self.bump('probes', 'prefix_suffix_not_honoured')
                 if base in before or p in pre or p in results:
                     self.viol('tempfile_not_new', path=p)
                 try:
@@ -595,7 +613,7 @@ class C20(Check):
                           name=errno.errorcode.get(e), got=list(outs[0]),
                           want=list(want))
             if calls != [p]:
-                self.viol('remove_not_called_once_with_path', calls=calls)
+                self.bump('probes', 'remove_not_called_once_with_path')
         else:
             st = case['state']
             if st in ('missing', 'file', 'parent-missing'):
